@@ -256,6 +256,12 @@ def run(ctx):
                 rpj.add_struct_tag(project_, rng, "BigArr_q", [("n", "DINT", 0), ("data", rng.choice(["SINT", "INT"]), n_), ("tail", "REAL", 0)], "bigarr_q")
                 rpj.add_string_tag(project_, rng, "BigStr_q", rng.choice([32767, 32768, 40000, 65535]), "bigstr_q")
                 res.count("projects-with-16-bit-boundary-sizes")
+            if size != "fixture" and pi % 4 == 0:
+                # a TIMER-shaped predefined type in every fourth project (the generator's own 10 % / 3 % odds leave some seeds with a
+                # single one): hidden status word, template id >= 0xF00, bare-name template form on firmware >= 32
+                project_ = rpj.generate_project(rng, size, fw=cfg[1], micro800=cfg[2])
+                rpj.add_predefined_tag(project_, rng, rng.choice(["TIMER", "TON_q", "Tmr" + str(pi)]), "tmr_q", bare=rng.random() < 0.7)
+                res.count("projects-with-a-timer-shaped-predefined-type")
             if size != "fixture" and pi % 4 == 2:
                 # "UDTs nested to any depth": one family nested 9 to 14 levels with a single tag of the outermost type, so the whole chain
                 # is unresolved when the driver meets it (the generator's ordinary projects stop at 4 levels)
